@@ -398,8 +398,9 @@ func (g *bindGen) argFor(name string, allowBulk bool) any {
 			if r.chance(1, 60) {
 				// lengths around the powers of two (tables, packed keys and caches have such bounds)
 				n = []int{63, 64, 65, 255, 256, 257, 1023, 1024, 1025, 4095, 4096, 4097}[r.intn(12)]
-				if thoroughTier && r.chance(1, 60) {
-					n = []int{16383, 16384, 16385, 32766, 32767, 65535, 65536, 65537}[r.intn(8)]
+				if thoroughTier && r.chance(1, 300) {
+					// (the extracted model is quadratic in the number of elements: a handful of these per run)
+					n = []int{16383, 16384, 16385}[r.intn(3)]
 				}
 			}
 			s := reflect.MakeSlice(t, n, n)
